@@ -12,9 +12,9 @@ PROPS = ['Props/Properties_C31.v']
 EXTRACT = '''From Coq Require Import Extraction ExtrOcamlBasic.
 Require Import C31_Model.
 Extraction "C31x.ml" sfmt_out32 sfmt_out64 set_seed next_raw raw_seq res53 uniform_value uniform_int
-  uniform_expr floorZ bits_of of_bits fofZ fofZ2 gauss_value polar extend init_gen_rand.
+  uniform_expr uniform_raw uniform_int_raw floorZ bits_of of_bits fofZ fofZ2 gauss_value polar extend init_gen_rand.
 '''
-# witness of the Coq theorem C31_uniform_int_in_range_binary64_refuted (raw draw 1903775 after setSeed(1))
+# witness of the Coq theorem C31_prefix_uniform_int_overshoot (raw draw 1903775 after setSeed(1))
 WIT_V = 0xfffffea7af9b68dd
 WIT_DRAW = 1903775
 B30 = struct.pack('>d', 2.0 ** 30).hex(); B30P1 = struct.pack('>d', 2.0 ** 30 + 1).hex()
@@ -172,25 +172,43 @@ def run(ctx):
         got = [l.strip() for l in lr[:3]]
         ctx.extra['res53_top'] = got
         if got[:2] == ['3ff0000000000000', '3ff0000000000000']:
-            ctx.report('res53_returns_one', 'to_res53(v) == 1.0 for v >= 2^64-1024, so the unit value is in [0,1], not [0,1)',
+            ctx.report('res53_returns_one', 'SFMT to_res53(v) == 1.0 for v >= 2^64-1024 (unit value in [0,1], not [0,1)); since fix 181ff92a no longer visible through Random::Uniform, which clamps',
                        {'replay_cmd': "echo 'RES ffffffffffffffff' | %s" % exe, 'failing_input': 'v = 0xffffffffffffffff', 'observed': got})
         else:
             ctx.notes.append('to_res53(2^64-1) no longer returns 1.0: ' + str(got))
             if got and got[0] != '3ff0000000000000' and not firstbad:
                 ctx.broken.append(('correspondence:RES', 'to_res53(2^64-1) = %s but the model (and theorem res53_in_unit_interval_refuted) say 1.0' % got[0]))
-        # (2) Uniform(2^30, 2^30+1).getIntValue() returns max (C31_uniform_int_in_range_binary64_refuted)
-        rc, lw, _ = run_lines(exe, 'WIT 1 %s %s %d\n' % (B30, B30P1, 2500000))
-        w = lw[0].split()
+        # (2) regression of the repaired defect (fix 181ff92a): before it, Uniform(2^30, 2^30+1).getIntValue() returned
+        #     max at draw 1903775 after setSeed(1) (C31_prefix_uniform_int_overshoot).  Now that draw must be in range
+        #     (C31_fixed_witness_in_range, C31_uniform_int_in_range_binary64) and no draw of the run may leave [min,max).
+        rc, la, _ = run_lines(exe, 'AT 1 %s %s %d\nWIT 1 %s %s %d\n' % (B30, B30P1, WIT_DRAW, B30, B30P1, 2500000))
+        at = la[0].split(); w = la[1].split()
         rc, lmv, _ = run_lines(os.path.join(d, 'drv'), 'UIV %s %s %x\nRES %x\n' % (B30, B30P1, WIT_V, WIT_V))
-        model_int = lmv[0].strip(); model_r = lmv[1].strip()
-        ctx.extra['int_overshoot_replay'] = {'implementation': w, 'model_value_for_witness': model_int, 'model_unit_value': model_r}
-        if len(w) == 3 and int(w[0]) == WIT_DRAW and w[1] == model_r and w[2] == model_int == '1073741825':
-            ctx.report('uniform_int_returns_max',
-                       'Random::Uniform(2^30, 2^30+1).getIntValue() returns max=1073741825 at draw %d after setSeed(1): min + r*range rounds up to max in binary64' % WIT_DRAW,
-                       {'replay_cmd': "echo 'WIT 1 %s %s 2500000' | %s" % (B30, B30P1, exe), 'failing_input': 'seed 1, min 2^30, max 2^30+1, draw %d, r bits %s' % (WIT_DRAW, w[1]), 'observed': w})
-        else:
-            ctx.broken.append(('correspondence:WIT', 'replay of the integer-overshoot witness differs: implementation %s, model predicts draw %d, r %s, value %s'
-                               % (w, WIT_DRAW, model_r, model_int)))
+        mv = lmv[0].split(); model_r = lmv[1].strip()
+        ctx.extra['int_overshoot_regression'] = {'implementation_at_witness_draw': at, 'implementation_first_out_of_range_draw': w,
+                                                 'model_int_value_prefix_int': mv, 'model_unit_value': model_r}
+        nvals_extra = 3
+        if not (len(mv) == 3 and mv[0] == '1073741824' and mv[2] == '1073741825'):
+            ctx.broken.append(('correspondence:UIV', 'extracted model on the old witness: expected getIntValue 1073741824 (pre-fix 1073741825), got %s' % mv))
+        elif at != [mv[0], mv[1], model_r]:
+            ctx.broken.append(('correspondence:AT', 'draw %d of seed 1 for Uniform(2^30,2^30+1): implementation (int, value, unit value) = %s, model = %s'
+                               % (WIT_DRAW, at, [mv[0], mv[1], model_r])))
+        if len(w) == 3 and w[0] != '0':
+            ctx.report('impl:uniform_int_out_of_range', 'Random::Uniform(2^30, 2^30+1).getIntValue() left [min,max) at draw %s after setSeed(1): %s (unit value bits %s)' % (w[0], w[2], w[1]),
+                       {'replay_cmd': "echo 'WIT 1 %s %s 2500000' | %s" % (B30, B30P1, exe), 'failing_input': 'seed 1, min 2^30, max 2^30+1, draw %s' % w[0], 'observed': w})
+            if not any(x[0].startswith('correspondence') for x in ctx.broken):
+                ctx.broken.append(('range:WIT', 'an out-of-range integer draw although C31_uniform_int_in_range_binary64 holds of the model'))
+        # corpus EX cases with integer bounds must stay in range after the clamp (implementation side of the EX lines)
+        for i, c in enumerate(cmds):
+            if c.startswith('EX ') and i < len(lc):
+                t = c.split(); o = lc[i].split()
+                mn = struct.unpack('>d', bytes.fromhex(t[1].rjust(16, '0')))[0]; mx = struct.unpack('>d', bytes.fromhex(t[2].rjust(16, '0')))[0]
+                r = struct.unpack('>d', bytes.fromhex(t[3].rjust(16, '0')))[0]
+                if len(o) == 4 and mn < mx and 0 <= r <= 1 and abs(mn) <= 2 ** 31 and abs(mx) <= 2 ** 31 and mn == int(mn) and mx == int(mx):
+                    cv = struct.unpack('>d', bytes.fromhex(o[2].rjust(16, '0')))[0]
+                    if not (mn <= cv < mx):
+                        ctx.report('impl:clamped_expression_out_of_range', 'clamped Uniform expression outside [min,max): "%s" -> %s' % (c, o),
+                                   {'failing_input': c, 'observed': o})
         if T:   # the model itself reaches the witness draw: raw value of draw 1903775 from the extracted SFMT model
             rc, lraw, _ = run_lines(os.path.join(d, 'drv'), 'RAWAT 1 %d\n' % WIT_DRAW, timeout=3000)
             ctx.extra['model_raw_at_witness_draw'] = lraw[0].strip()
@@ -199,6 +217,7 @@ def run(ctx):
     ctx.assumptions += [
         'binary64 semantics = Flocq 4.1 BinarySingleNaN (round to nearest even); the x87 long-double product in to_res53 is modelled as one rounding of v*2^-64 (exact in the 64-bit-mantissa format)',
         'Gaussian theorems are over the reals (sqrt, ln from the Coq standard library); the float instance run in the correspondence uses the OCaml runtime libm (same libm as the C++ side on this image)',
+        'std::nextafter(max, min) for min < max is modelled by Flocq Bpred (validated by the EX cases)',
         'gen_rand_all / gen_rand_array index arithmetic is modelled as the plain recursion stream; its agreement with the code (all four loops of gen_rand_array, sizes 312..2048) is established by the bit-exact correspondence only',
         'statistical mean/variance of the sequences is not decided (a statistical test is not a theorem)',
         'init_by_array is not modelled (unused by SimTK::Random)']
